@@ -74,10 +74,12 @@ def run_ops(ops, env):
             xp = None
             try:
                 with experiment(env["wd"], op["name"], launcher=X.make_launcher(env["wd"])) as xp:
+                    V.W.events.append(("xp_enter", op["name"], env["proc"].pid))
                     env["xps"].append(xp)
                     try:
                         run_ops(op["body"], env)
                     finally:
+                        V.W.events.append(("xp_body_end", op["name"], env["proc"].pid))
                         env["xps"].pop()
                 V.W.events.append(("xp_exit", op["name"], env["proc"].pid))
             except FailedExperiment:
@@ -127,8 +129,44 @@ def run_ops(ops, env):
             V.W.events.append(("waitxp",))
         elif k == "raise":
             raise Boom()
+        elif k == "index":
+            env["rec"].setdefault("index", []).append(index_state(env["wd"], op["name"]))
         else:
             raise KeyError(k)
+
+
+def index_state(wd, xpname, with_orphans=True):
+    """Content of xp/<name>/jobs and jobs.bak as job names, plus what the real `orphans` command lists."""
+    import json as _json
+    from pathlib import Path
+    out = {}
+    base = Path(wd) / "xp" / xpname
+    for sub in ("jobs", "jobs.bak"):
+        d = base / sub
+        if not d.is_dir():
+            out[sub] = None
+            continue
+        items = []
+        for p in sorted(d.glob("*/*")):
+            target_ok = p.is_symlink() and p.resolve() == (Path(wd) / "jobs" / p.parent.name / p.name).resolve()
+            items.append([p.name[:8], bool(target_ok), p.exists()])
+        out[sub] = items
+    if with_orphans:
+        out["orphans"] = run_orphans(wd)
+    return out
+
+
+def run_orphans(wd, clean=False):
+    """The real `experimaestro orphans` command (click CliRunner, in-process)."""
+    import re
+    from click.testing import CliRunner
+    from experimaestro.__main__ import cli
+    args = ["orphans", str(wd)] + (["--clean"] if clean else [])
+    res = CliRunner().invoke(cli, args)
+    if res.exception is not None and not isinstance(res.exception, SystemExit):
+        return {"error": repr(res.exception)}
+    listed = [l.strip().split("/")[-1][:8] for l in res.output.splitlines() if re.search(r"/[0-9a-f]{64}$", l.strip())]
+    return {"listed": sorted(listed), "exit": res.exit_code}
 
 
 def build_job(op, env):
